@@ -751,7 +751,7 @@ class Walk:
 
     def __init__(self, rng, name, cfg=None, recv_max=None, max_pkt=None, clones=1, sei=None, weights=None,
                  allow_hold=False, allow_drop=False, allow_poll=False, nonconformant=0.0, subid_modes=None, snap=True,
-                 via_auth=None, batch=0.0):
+                 via_auth=None, batch=0.0, coalesce=0.35, connect_opts=True):
         self.rng = rng
         self.s = Sess(name, cfg)
         ps = []
@@ -763,6 +763,15 @@ class Walk:
         fields = [('cid', b'c')]
         if sei is not None:
             fields.append(('sei', sei))
+        if connect_opts:
+            # what the client announces about ITSELF in CONNECT (its own receive maximum, maximum packet size, topic alias
+            # maximum, keep alive, credentials ...) must not change anything it does afterwards
+            for k, g in [('ka', lambda r: r.choice([0, 60, 65535])), ('rm', lambda r: r.choice([1, 2, 10])),
+                         ('mps', lambda r: r.choice([1, 16, 40, 256])), ('tam', lambda r: r.choice([0, 5])),
+                         ('rri', lambda r: r.random() < 0.5), ('rpi', lambda r: r.random() < 0.5),
+                         ('cs', lambda r: r.random() < 0.5), ('un', lambda r: b'u'), ('pw', lambda r: b'p')]:
+                if rng.random() < 0.25:
+                    fields.append((k, g(rng)))
         self.s.connect(fields, ps, via_auth=via_auth if via_auth is not None else rng.random() < 0.25)
         for h in range(1, clones):
             self.s.add(f'CLONE h0 h{h}')
@@ -778,9 +787,10 @@ class Walk:
         self.outstanding = 0            # QoS>0 publishes written and not completed
         self.inq2 = set()
         self.held = set()
-        self.subid_modes = subid_modes or ['reg', 'reg', 'unreg', 'absent']
+        self.subid_modes = subid_modes or ['reg', 'reg', 'unreg', 'absent', 'multi']
         self.batch = batch
         self.in_batch = False
+        self.coalesce = coalesce
 
     def h(self):
         return self.rng.choice(self.s.handles)
@@ -866,7 +876,10 @@ class Walk:
         elif k == 'pubrel':
             pid = rng.choice(sorted(self.inq2)) if self.inq2 and rng.random() < 0.8 else rng.choice([1, 2, 3])
             self.inq2.discard(pid)
-            s.feed(m.ack('pubrel', pid))
+            # every form of PUBREL releases the identifier: short, with reason 0x00 / 0x92, with properties
+            form = rng.choice(['id', 'id', 'r0', 'r92', 'full0', 'full92'])
+            s.feed(m.ack('pubrel', pid, None if form == 'id' else (0x92 if '92' in form else 0),
+                         rand_props(rng, [31], p=0.5) if form.startswith('full') else None))
         elif k == 'stream':
             cands = sorted(s.rsps)
             if cands:
@@ -878,14 +891,17 @@ class Walk:
     def ack(self, op, kind, pid, reason=None):
         rng, s = self.rng, self.s
         d = s.live_ops[op]
+        full = lambda: rand_props(rng, [31], p=0.5) if rng.random() < 0.3 else None      # noqa: E731
         if kind == 'puback':
             r = reason if reason is not None else rng.choice(m.PUBACK_REASONS if rng.random() < 0.4 else [0])
-            s.feed(m.ack('puback', pid, r if r or rng.random() < 0.5 else None))
+            fp = full()
+            s.feed(m.ack('puback', pid, r if r or fp is not None or rng.random() < 0.5 else None, fp))
             s.live_ops.pop(op)
             self.outstanding -= 1
         elif kind == 'pubrec':
             r = reason if reason is not None else rng.choice(m.PUBREC_REASONS if rng.random() < 0.4 else [0])
-            s.feed(m.ack('pubrec', pid, r if r or rng.random() < 0.5 else None))
+            fp = full()
+            s.feed(m.ack('pubrec', pid, r if r or fp is not None or rng.random() < 0.5 else None, fp))
             if r >= 0x80:
                 s.live_ops.pop(op)
                 self.outstanding -= 1
@@ -893,7 +909,8 @@ class Walk:
                 d['phase'] = 1
         elif kind == 'pubcomp':
             r = reason if reason is not None else rng.choice(m.PUBCOMP_REASONS if rng.random() < 0.3 else [0])
-            s.feed(m.ack('pubcomp', pid, r if r or rng.random() < 0.5 else None))
+            fp = full()
+            s.feed(m.ack('pubcomp', pid, r if r or fp is not None or rng.random() < 0.5 else None, fp))
             s.live_ops.pop(op)
             self.outstanding -= 1
         elif kind == 'suback':
@@ -950,7 +967,22 @@ class Walk:
     def run(self, n):
         for _ in range(n):
             self.step()
-        return self.s.script()
+        return coalesce_feeds(self.rng, self.s.script(), self.coalesce)
+
+
+def coalesce_feeds(rng, script, p):
+    """several packets delivered by ONE transport read: adjacent FEED lines (no explicit cuts) are merged with probability p"""
+    name, lines = script
+    if not p:
+        return script
+    out = []
+    for l in lines:
+        if (out and l.startswith('FEED ') and out[-1].startswith('FEED ') and 'cuts=' not in l and 'cuts=' not in out[-1]
+                and rng.random() < p):
+            out[-1] = out[-1] + l[5:]
+        else:
+            out.append(l)
+    return (name, out)
 
 
 def fam_walk(rng, tier, prefix, n_scripts, n_steps, **kw):
@@ -958,6 +990,25 @@ def fam_walk(rng, tier, prefix, n_scripts, n_steps, **kw):
     for i in range(n_scripts):
         w = Walk(rng, f'{prefix}-{i}', **{k: (v(rng) if callable(v) else v) for k, v in kw.items()})
         out.append(w.run(n_steps(rng) if callable(n_steps) else n_steps))
+    return out
+
+
+def fam_common(rng, tier, prefix, n_quick=30, n_thorough=800, hold=True, tail=None):
+    """kitchen-sink walks: every cross-cutting feature at once (clones, small Receive Maximum, a size limit with oversized
+    publishes, cancelled operations, spurious polls, batched requests, several packets per read, both handshakes, client-side
+    CONNECT options, every acknowledgement form, inbound/outbound identifier collisions, several subscription identifiers per
+    message). Each property's check runs such walks under its own oracle and the correspondence comparison."""
+    out = []
+    for i in range(n_quick if tier == 'quick' else n_thorough):
+        mp = rng.choice([None, None, 64])
+        wts = dict(pub0=2, pub1=4, pub2=4, sub=2, unsub=1, ping=1, ack=9, inbound=5, pubrel=2, stream=2, pubbig=2 if mp else 0)
+        w = Walk(rng, f'{prefix}-common-{i}', recv_max=rng.choice([None, None, 1, 2, 5]), max_pkt=mp,
+                 clones=rng.choice([1, 2, 3]), sei=rng.choice([None, 0, 100]), weights=wts,
+                 allow_drop=rng.random() < 0.5, allow_poll=rng.random() < 0.3, batch=0.15 if hold else 0.0)
+        sc = w.run(rng.choice([15, 40, 90]))
+        if tail:
+            sc = (sc[0], sc[1] + tail)
+        out.append(sc)
     return out
 
 
@@ -1838,8 +1889,18 @@ def fam_C17(rng, tier):
     return out
 
 
+def with_common(fam, prefix, **kw):
+    def f(rng, tier):
+        return fam(rng, tier) + fam_common(rng, tier, prefix, **kw)
+    return f
+
+
 FAMILIES = {
-    'C01': fam_C01, 'C02': fam_C02, 'C03': fam_C03, 'C04': fam_C04, 'C05': fam_C05, 'C06': fam_C06, 'C07': fam_C07,
-    'C08': fam_C08, 'C09': fam_C09, 'C10': fam_C10, 'C11': fam_C11, 'C12': fam_C12, 'C13': fam_C13, 'C14': fam_C14,
-    'C15': fam_C15, 'C16': fam_C16, 'C17': fam_C17,
+    'C01': fam_C01, 'C02': fam_C02, 'C03': fam_C03,
+    'C04': with_common(fam_C04, 'c04'), 'C05': with_common(fam_C05, 'c05'), 'C06': with_common(fam_C06, 'c06'),
+    'C07': with_common(fam_C07, 'c07'), 'C08': with_common(fam_C08, 'c08'), 'C09': with_common(fam_C09, 'c09'),
+    'C10': with_common(fam_C10, 'c10'), 'C11': with_common(fam_C11, 'c11', n_quick=15, n_thorough=300),
+    'C12': with_common(fam_C12, 'c12'), 'C13': with_common(fam_C13, 'c13'),
+    'C14': with_common(fam_C14, 'c14', tail=['DROPCTX', 'OP 9001 h0 PING', 'OP 9002 h0 DISCONNECT']),
+    'C15': with_common(fam_C15, 'c15'), 'C16': fam_C16, 'C17': fam_C17,
 }
